@@ -1,5 +1,5 @@
 INFO = {
     "level": "proof",
-    "level_text": "placeholder",
-    "level_note": "placeholder",
+    "level_text": "DispatchTrip.enter sets the request's record to its vehicle, DispatchTrip.exit clears it and is never refused, move() clears it when the vehicle is stopped for lack of energy (after fix F4), transition_previous_to_next always runs the previous activity's exit; no other kernel function writes dispatched_vehicle (frame of the contracts).",
+    "level_note": 'the inductive reading (record set => vehicle in DispatchTrip to that request) composes these contracts; pooling trips assumed; `at most one vehicle per request under the built-in dispatcher` depends on Dispatcher._valid_request (not under contract yet).',
 }
